@@ -102,11 +102,12 @@ def last_state(comp, uid):
     return st[-1] if st else None
 
 
-def run_pipeline(rp, tree, tasks, outcomes, produce):
+def run_pipeline(rp, tree, tasks, outcomes, produce, stagers=None):
     """tasks: task dicts (bulk).  outcomes: uid -> 'DONE'|'FAILED'|'CANCELED' (what execution ends in).
     produce: uid -> {relative path in task sandbox: content}, written when the task 'runs'.
     Returns {uid: final state, ...}, per-stage records"""
-    tin, ain, aout, tout = make_stagers(rp, tree)
+    # (`stagers`: the same four components serve one bulk after the other, as in a running session)
+    tin, ain, aout, tout = stagers or make_stagers(rp, tree)
     cwd = os.getcwd()
     os.chdir(tree.client)
     final = {}
